@@ -88,7 +88,7 @@ def run(c):
     c.stage_a(sd, "MC_C08", "MC_C08_fresh", workers=4, timeout=600)
     # ---- stage B
     if thorough:
-        set_constants(sd, "MC_C08_gen", dict(BigOctets="{100, 127, 128, 129, 255, 256, 257, 1000, 4096}"))
+        set_constants(sd, "MC_C08_gen", dict(BigOctets="{100, 127, 128, 129, 255, 256, 257, 1000, 4096, 8192, 8193, 65535, 65536, 65537, 131079}"))
     res = c.tlc(sd, "MC_C08_gen", "MC_C08_gen", workers=2, timeout=900)
     if not res.clean:
         raise Infra("history generator failed:\n" + res.out[-2000:])
